@@ -55,6 +55,7 @@ package op
 //@   ensures scopes: err == nil ==> scopesNarrowed(result0, tokenReq.Scopes)
 //@   ensures authenticated: err == nil ==> authenticated(result1.GetID()) || result1.AuthMethod() == oidc.AuthMethodNone
 //@   ensures token-present: err == nil ==> tokenReq.RefreshToken != ""
+//@   ensures storage-fail-closed: !old(storageFailed) && storageFailed ==> err != nil
 
 // ---- client authentication building blocks (C05, C14) ----
 
@@ -68,6 +69,7 @@ package op
 //@   ensures assertion-verified: err == nil ==> callres("op.VerifyJWTAssertion", 1) == nil
 //@   ensures client-is-issuer: err == nil ==> result0.GetID() == callres("op.VerifyJWTAssertion", 0).Issuer
 //@   defines authenticated: err == nil ==> authenticated(result0.GetID())
+//@   ensures storage-fail-closed: !old(storageFailed) && storageFailed ==> err != nil
 
 // tokensIssued(resp, request, client, code, refreshToken) is *defined* as "CreateTokenResponse
 // succeeded for these arguments and returned resp".
@@ -75,7 +77,7 @@ package op
 
 //@ func op.CreateTokenResponse
 //@   requires valid(request) && valid(client) && valid(creator)
-//@   modifies wallclock, os(creator.Storage())
+//@   modifies wallclock, os(creator.Storage()), storageFailed
 //@   defines issued: err == nil ==> tokensIssued(result0, request, client, code, refreshToken)
 //@   ensures fail-closed: err != nil ==> result0 == nil
 //@   ensures valid: err == nil ==> result0 != nil
@@ -89,11 +91,13 @@ package op
 //@        && (createAccessToken ==> callarg("op.CreateAccessToken", 1) == request && callarg("op.CreateIDToken", 4) == callres("op.CreateAccessToken", 0)
 //@                                && result0.AccessToken == callres("op.CreateAccessToken", 0))
 //@   ensures id-token-returned: err == nil ==> result0.IDToken == callres("op.CreateIDToken", 0)
+//@   ensures storage-fail-closed: !old(storageFailed) && storageFailed ==> err != nil
 
 //@ func op.ParseRefreshTokenRequest
 //@   requires valid(r) && valid(decoder)
 //@   ensures ok: err == nil ==> result0 != nil
 //@   ensures fail-closed: err != nil ==> result0 == nil
+//@   ensures storage-fail-closed: !old(storageFailed) && storageFailed ==> err != nil
 
 // Handler: exactly one response; a 200 answer carries tokens issued for the request that
 // ValidateRefreshTokenRequest accepted, with the presented refresh token handed on for rotation.
@@ -106,6 +110,7 @@ package op
 //@   ensures success: Resp_status[w] == 200 ==> callres("op.ValidateRefreshTokenRequest", 2) == nil
 //@        && tokensIssued(as(Resp_body[w], "*oidc.AccessTokenResponse"), callres("op.ValidateRefreshTokenRequest", 0),
 //@                        callres("op.ValidateRefreshTokenRequest", 1), "", callres("op.ParseRefreshTokenRequest", 0).RefreshToken)
+//@   ensures storage-fail-closed: !old(storageFailed) && storageFailed ==> Resp_status[w] >= 400
 
 // ---- token construction (C06; here only what C04/C07 need) ----
 
@@ -116,17 +121,21 @@ package op
 //@   ensures rotation: err == nil && implements(tokenRequest, "RefreshTokenRequest")
 //@        && !implements(tokenRequest, "AuthRequest") && !implements(tokenRequest, "TokenExchangeRequest")
 //@        ==> rotated(refreshToken, newRefreshToken)
+//@   ensures storage-fail-closed: !old(storageFailed) && storageFailed ==> err != nil
 
 //@ func op.CreateIDToken
 //@   requires valid(request) && valid(storage) && valid(client)
+//@   ensures storage-fail-closed: !old(storageFailed) && storageFailed ==> err != nil
 
 //@ func op.CreateJWT
 //@   requires valid(tokenRequest) && valid(storage) && valid(client)
+//@   ensures storage-fail-closed: !old(storageFailed) && storageFailed ==> err != nil
 
 //@ func op.RefreshTokenRequestByRefreshToken
 //@   requires valid(storage)
 //@   ensures ok: err == nil ==> valid(result0)
 //@   ensures fail-closed: err != nil ==> result0 == nil
+//@   ensures storage-fail-closed: !old(storageFailed) && storageFailed ==> err != nil
 
 // New Server interface path (client authentication and the registered-grant check happen in
 // webServer.withClient before this method is reached, see C05).
@@ -138,6 +147,7 @@ package op
 //@   ensures scopes: err == nil ==> scopesNarrowed(callres("op.RefreshTokenRequestByRefreshToken", 0), r.Data.Scopes)
 //@   ensures issued: err == nil ==> result0 != nil && tokensIssued(as(result0.Data, "*oidc.AccessTokenResponse"),
 //@        callres("op.RefreshTokenRequestByRefreshToken", 0), r.Client, "", r.Data.RefreshToken)
+//@   ensures storage-fail-closed: !old(storageFailed) && storageFailed ==> err != nil
 
 // ---- OP-side token verifiers (C02, C08, C18) ----
 
@@ -179,6 +189,7 @@ package op
 //@   ensures selected: err == nil ==> callres("oidc.FindMatchingKey", 1) == nil
 //@   ensures usable-selected: err == nil ==> usableKey(callres("oidc.FindMatchingKey", 0), "sig", callres("oidc.GetKeyIDAndAlg", 1))
 //@   ensures with-selected-key: err == nil ==> joseVerified(jws, callres("oidc.FindMatchingKey", 0), bstr(result0))
+//@   ensures storage-fail-closed: !old(storageFailed) && storageFailed ==> err != nil
 
 // The JWT-profile key set verifies with the key the storage files under (kid, client id).
 //@ func op.jwtProfileKeySet.VerifySignature
@@ -188,6 +199,7 @@ package op
 //@        && callres("op.JWTProfileKeyStorage.GetKeyByIDAndClientID", 0) != nil
 //@        && joseVerified(jws, *callres("op.JWTProfileKeyStorage.GetKeyByIDAndClientID", 0), bstr(payload))
 //@   ensures key-of-this-client: err == nil ==> keyOfClient(callres("op.JWTProfileKeyStorage.GetKeyByIDAndClientID", 0), callres("oidc.GetKeyIDAndAlg", 0), k.clientID)
+//@   ensures storage-fail-closed: !old(storageFailed) && storageFailed ==> err != nil
 
 // Options store the key set they are given in the field they name, and nothing else.
 //@ func op.WithIDTokenHintKeySet$1
@@ -225,6 +237,7 @@ package op
 //@   defines authenticated: err == nil ==> authenticated(result0.Issuer)
 //@   ensures signature-configured-set: err == nil && v.keySet != nil ==> sigChecked(assertion, jwtPayload(assertion), v.keySet, nil)
 //@   ensures signature-issuer-keys: err == nil && v.keySet == nil ==> clientKeysChecked(assertion, jwtPayload(assertion), v.Storage, result0.Issuer)
+//@   ensures storage-fail-closed: !old(storageFailed) && storageFailed ==> err != nil
 
 // A request object counts only when it is signed with a key of the client it names as issuer, and
 // that issuer is the outer client_id; until then the auth request is left untouched.
@@ -245,6 +258,7 @@ package op
 //@        && (callarg("oidc.ParseToken", 1, "*oidc.RequestObject").ResponseType == "" || callarg("oidc.ParseToken", 1, "*oidc.RequestObject").ResponseType == old(authReq.ResponseType))
 //@        && callarg("oidc.ParseToken", 1, "*oidc.RequestObject").Issuer == callarg("oidc.ParseToken", 1, "*oidc.RequestObject").ClientID
 //@   ensures targets-this-issuer: result == nil ==> callres("slices.Contains", 0)
+//@   ensures storage-fail-closed: !old(storageFailed) && storageFailed ==> result != nil
 
 //@ func op.CopyRequestObjectToAuthRequest
 //@   requires valid(authReq) && valid(requestObject)
@@ -266,6 +280,7 @@ package op
 //@   ensures identity-is-issuer: err == nil ==> clientID == callres("op.VerifyJWTAssertion", 0).Issuer
 //@   defines authenticated: err == nil ==> authenticated(clientID)
 //@   ensures fail-closed: err != nil ==> clientID == ""
+//@   ensures storage-fail-closed: !old(storageFailed) && storageFailed ==> err != nil
 
 // jwt-bearer grant (legacy handler): a 200 answer only after the assertion verified.
 //@ func op.JWTProfile
@@ -276,6 +291,7 @@ package op
 //@   ensures responded: Resp_written[w]
 //@   ensures success-only-verified: Resp_status[w] == 200 ==> callres("op.VerifyJWTAssertion", 1) == nil
 //@        && callres("op.CreateJWTTokenResponse", 1) == nil
+//@   ensures storage-fail-closed: !old(storageFailed) && storageFailed ==> Resp_status[w] >= 400
 
 // ---- C03: redirect URI validation. registeredRedirect is written from the property statement.
 
@@ -325,12 +341,14 @@ package op
 //@ spec func responseURLFor(url string, redirectURI string) bool
 //@ func op.AuthResponseURL
 //@   requires valid(encoder)
+//@   modifies os(encoder)
 //@   defines built: err == nil ==> responseURLFor(result0, redirectURI)
 //@   ensures fail-closed: err != nil ==> result0 == ""
 
 // Every redirect-enabled error is raised only after the redirect URI was validated.
 //@ func op.ValidateAuthRequestClient
 //@   requires valid(authReq) && valid(client)
+//@   ensures storage-fail-closed: !old(storageFailed) && storageFailed ==> err != nil
 //@   ensures validated-or-disabled: err != nil && !redirectDisabledErr(err) ==> validatedRedirect(old(authReq.RedirectURI))
 //@   ensures ok-validated: err == nil ==> validatedRedirect(old(authReq.RedirectURI))
 //@   ensures uri-kept: authReq.RedirectURI == old(authReq.RedirectURI)
@@ -338,6 +356,7 @@ package op
 //@   requires valid(authReq) && valid(authorizer)
 //@   ensures validated-or-disabled: err != nil && !redirectDisabledErr(err) ==> validatedRedirect(authReq.RedirectURI)
 //@   ensures ok-validated: err == nil ==> validatedRedirect(authReq.RedirectURI)
+//@   ensures storage-fail-closed: !old(storageFailed) && storageFailed ==> err != nil
 
 // An error of an authorization request is redirected only to a validated redirect URI; without an
 // auth request, without a URI or for a redirect-disabled error it is shown directly (400).
@@ -345,8 +364,9 @@ package op
 //@   requires once: !Resp_written[w]
 //@   requires err != nil && valid(authorizer) && valid(r) && valid(w)
 //@   requires validated-target: authReq == nil || authReq.GetRedirectURI() == "" || redirectDisabledErr(err) || validatedRedirect(authReq.GetRedirectURI())
-//@   modifies Resp_written[w], Resp_status[w], Resp_location[w], Resp_body[w], os(w), deep(asErr("*oidc.Error", err))
+//@   modifies Resp_written[w], Resp_status[w], Resp_location[w], Resp_body[w], Resp_error[w], os(w), deep(asErr("*oidc.Error", err))
 //@   ensures responded: Resp_written[w]
+//@   defines error-answer: Resp_error[w]
 //@   ensures shown-directly: authReq == nil || authReq.GetRedirectURI() == "" || old(redirectDisabledErr(err)) ==> Resp_status[w] == 400
 //@   ensures redirect-target: Resp_status[w] == 302 ==> authReq != nil && responseURLFor(Resp_location[w], authReq.GetRedirectURI())
 //@ func op.TryErrorRedirect
@@ -358,40 +378,46 @@ package op
 
 // The authorization endpoint (legacy router).
 //@ func op.Authorize
-//@   requires !Resp_written[w] && valid(r) && valid(authorizer) && valid(w)
-//@   modifies Resp_written[w], Resp_status[w], Resp_location[w], Resp_body[w]
+//@   requires !Resp_error[w] && !Resp_written[w] && valid(r) && valid(authorizer) && valid(w)
+//@   modifies Resp_written[w], Resp_status[w], Resp_location[w], Resp_body[w], Resp_error[w]
 //@   unframed
 //@   ensures responded: Resp_written[w]
+//@   ensures storage-fail-closed: !old(storageFailed) && storageFailed ==> Resp_status[w] >= 400 || Resp_error[w]
 //@ func op.AuthorizeCallback
-//@   requires !Resp_written[w] && valid(r) && valid(authorizer) && valid(w)
-//@   modifies Resp_written[w], Resp_status[w], Resp_location[w], Resp_body[w]
+//@   requires !Resp_error[w] && !Resp_written[w] && valid(r) && valid(authorizer) && valid(w)
+//@   modifies Resp_written[w], Resp_status[w], Resp_location[w], Resp_body[w], Resp_error[w]
 //@   unframed
+//@   ensures storage-fail-closed: !old(storageFailed) && storageFailed ==> Resp_status[w] >= 400 || Resp_error[w]
 //@ func op.AuthResponse
-//@   requires !Resp_written[w] && valid(r) && valid(authorizer) && valid(w) && valid(authReq)
-//@   modifies Resp_written[w], Resp_status[w], Resp_location[w], Resp_body[w]
+//@   requires !Resp_error[w] && !Resp_written[w] && valid(r) && valid(authorizer) && valid(w) && valid(authReq)
+//@   modifies Resp_written[w], Resp_status[w], Resp_location[w], Resp_body[w], Resp_error[w]
 //@   unframed
 //@   requires done: authReq.Done()
 //@   requires validated: validatedRedirect(authReq.GetRedirectURI())
+//@   ensures storage-fail-closed: !old(storageFailed) && storageFailed ==> Resp_status[w] >= 400 || Resp_error[w]
 //@ func op.AuthResponseCode
-//@   requires !Resp_written[w] && valid(r) && valid(authorizer) && valid(w) && valid(authReq)
-//@   modifies Resp_written[w], Resp_status[w], Resp_location[w], Resp_body[w]
+//@   requires !Resp_error[w] && !Resp_written[w] && valid(r) && valid(authorizer) && valid(w) && valid(authReq)
+//@   modifies Resp_written[w], Resp_status[w], Resp_location[w], Resp_body[w], Resp_error[w]
 //@   unframed
 //@   requires done: authReq.Done()
 //@   requires validated: validatedRedirect(authReq.GetRedirectURI())
 //@   ensures redirect-target: Resp_status[w] == 302 ==> responseURLFor(Resp_location[w], authReq.GetRedirectURI())
+//@   ensures storage-fail-closed: !old(storageFailed) && storageFailed ==> Resp_status[w] >= 400 || Resp_error[w]
 //@ func op.AuthResponseToken
-//@   requires !Resp_written[w] && valid(r) && valid(authorizer) && valid(w) && valid(authReq) && valid(client)
-//@   modifies Resp_written[w], Resp_status[w], Resp_location[w], Resp_body[w]
+//@   requires !Resp_error[w] && !Resp_written[w] && valid(r) && valid(authorizer) && valid(w) && valid(authReq) && valid(client)
+//@   modifies Resp_written[w], Resp_status[w], Resp_location[w], Resp_body[w], Resp_error[w]
 //@   unframed
 //@   requires done: authReq.Done()
 //@   requires validated: validatedRedirect(authReq.GetRedirectURI())
 //@   ensures redirect-target: Resp_status[w] == 302 ==> responseURLFor(Resp_location[w], authReq.GetRedirectURI())
+//@   ensures storage-fail-closed: !old(storageFailed) && storageFailed ==> Resp_status[w] >= 400 || Resp_error[w]
 
 // The authorization endpoint (Server interface router): the Server's Authorize method is reached
 // only with a validated redirect URI, and may redirect errors only there.
 //@ func op.LegacyServer.Authorize
 //@   requires valid(s) && valid(s.provider) && valid(r) && valid(r.Data) && valid(r.Client)
 //@   requires validated: validatedRedirect(r.Data.RedirectURI)
+//@   ensures storage-fail-closed: !old(storageFailed) && storageFailed ==> err != nil || called("op.TryErrorRedirect")
 
 // ---- C04: authorization code exchange. Post-conditions are written from the property statement.
 
@@ -402,6 +428,7 @@ package op
 //@   defines found: err == nil ==> codeOf(result0, code)
 //@   ensures ok: err == nil ==> valid(result0)
 //@   ensures fail-closed: err != nil ==> result0 == nil
+//@   ensures storage-fail-closed: !old(storageFailed) && storageFailed ==> err != nil
 
 //@ func op.AuthorizeCodeChallenge
 //@   modifies nothing
@@ -410,6 +437,7 @@ package op
 //@ func op.AuthorizeClientIDSecret
 //@   requires valid(storage)
 //@   defines authenticated: result == nil ==> authenticated(clientID)
+//@   ensures storage-fail-closed: !old(storageFailed) && storageFailed ==> err != nil
 
 // pkceSatisfied: whenever the authorization request carried a challenge the presented verifier matches it.
 //@ spec func pkceSatisfied(req AuthRequest, verifier string) bool = req.GetCodeChallenge() != nil ==> verifier != "" && challengeMatches(req.GetCodeChallenge(), verifier)
@@ -424,6 +452,7 @@ package op
 //@   ensures client-auth: err == nil ==> authenticated(client.GetID()) || client.AuthMethod() == oidc.AuthMethodNone
 //@   ensures registered-method: err == nil && tokenReq.ClientAssertionType != oidc.ClientAssertionTypeJWTAssertion ==> client.AuthMethod() != oidc.AuthMethodPrivateKeyJWT && client.GetID() == tokenReq.ClientID
 //@   ensures registered-method-jwt: err == nil && tokenReq.ClientAssertionType == oidc.ClientAssertionTypeJWTAssertion ==> client.AuthMethod() == oidc.AuthMethodPrivateKeyJWT
+//@   ensures storage-fail-closed: !old(storageFailed) && storageFailed ==> err != nil
 
 //@ func op.ValidateAccessTokenRequest
 //@   requires valid(tokenReq) && valid(exchanger)
@@ -436,17 +465,19 @@ package op
 //@   ensures redirect-binding: err == nil ==> tokenReq.RedirectURI == result0.GetRedirectURI()
 //@   ensures pkce: err == nil ==> pkceSatisfied(result0, tokenReq.CodeVerifier)
 //@   ensures pkce-public: err == nil && result1.AuthMethod() == oidc.AuthMethodNone ==> result0.GetCodeChallenge() != nil
+//@   ensures storage-fail-closed: !old(storageFailed) && storageFailed ==> err != nil
 
 // Token endpoint, legacy router: 200 only with tokens issued for the request the code belongs to.
 //@ func op.CodeExchange
 //@   requires !Resp_written[w] && valid(r) && valid(exchanger) && valid(w)
-//@   modifies Resp_written[w], Resp_status[w], Resp_location[w], Resp_body[w]
+//@   modifies Resp_written[w], Resp_status[w], Resp_location[w], Resp_body[w], Resp_error[w]
 //@   unframed
 //@   ensures responded: Resp_written[w]
 //@   ensures success: Resp_status[w] == 200 ==> callres("op.ValidateAccessTokenRequest", 2) == nil
 //@        && callres("op.ParseAccessTokenRequest", 0).Code != ""
 //@        && tokensIssued(as(Resp_body[w], "*oidc.AccessTokenResponse"), callres("op.ValidateAccessTokenRequest", 0),
 //@                        callres("op.ValidateAccessTokenRequest", 1), callres("op.ParseAccessTokenRequest", 0).Code, "")
+//@   ensures storage-fail-closed: !old(storageFailed) && storageFailed ==> Resp_status[w] >= 400
 
 // Server interface path: the client was authenticated by webServer.withClient (C05); binding of the
 // code to that client, to the redirect URI and to the PKCE proof happens here.
@@ -460,13 +491,16 @@ package op
 //@   ensures pkce-public: err == nil && r.Client.AuthMethod() == oidc.AuthMethodNone ==> callres("op.AuthRequestByCode", 0).GetCodeChallenge() != nil
 //@   ensures issued: err == nil ==> result0 != nil && tokensIssued(as(result0.Data, "*oidc.AccessTokenResponse"),
 //@        callres("op.AuthRequestByCode", 0), r.Client, r.Data.Code, "")
+//@   ensures storage-fail-closed: !old(storageFailed) && storageFailed ==> err != nil
 
 // ---- C05: client authentication and registered grants ----
 
 //@ func op.ClientBasicAuth
 //@   requires valid(r) && valid(storage)
+//@   modifies os(storage)
 //@   ensures authenticated: err == nil ==> authenticated(clientID)
 //@   ensures fail-closed: err != nil ==> clientID == ""
+//@   ensures storage-fail-closed: !old(storageFailed) && storageFailed ==> err != nil
 
 // The boolean result reports authentication truthfully: true only after the storage's secret check
 // or a verified private_key_jwt assertion for exactly the returned client id.
@@ -475,12 +509,14 @@ package op
 //@   ensures truthful: err == nil && authenticated ==> authenticated(clientID)
 //@   ensures fail-closed: err != nil ==> clientID == "" && !authenticated
 //@   ensures identified: err == nil ==> clientID != "" || authenticated
+//@   ensures storage-fail-closed: !old(storageFailed) && storageFailed ==> err != nil
 
 // Introspection is answered only for an authenticated caller.
 //@ func op.ParseTokenIntrospectionRequest
 //@   requires valid(r) && valid(introspector)
 //@   ensures authenticated: err == nil ==> authenticated(clientID)
 //@   ensures fail-closed: err != nil ==> token == "" && clientID == ""
+//@   ensures storage-fail-closed: !old(storageFailed) && storageFailed ==> err != nil
 
 //@ func op.Introspect
 //@   requires !Resp_written[w] && valid(r) && valid(introspector) && valid(w)
@@ -508,6 +544,7 @@ package op
 //@   ensures known-client-with-grant: err == nil ==> callres("op.OPStorage.GetClientByClientID", 1) == nil
 //@        && grantRegistered(callres("op.OPStorage.GetClientByClientID", 0), oidc.GrantTypeDeviceCode)
 //@        && result0 != nil && result0.ClientID == callres("op.OPStorage.GetClientByClientID", 0).GetID()
+//@   ensures storage-fail-closed: !old(storageFailed) && storageFailed ==> err != nil
 
 // Server interface router: VerifyClient authenticates the client in the way it is registered.
 //@ func op.LegacyServer.VerifyClient
@@ -521,10 +558,11 @@ package op
 //@        ==> result0.AuthMethod() != oidc.AuthMethodPrivateKeyJWT && result0.GetID() == r.Data.ClientID
 //@   ensures post-only-if-enabled: err == nil && formValue(r.Form, "grant_type") != "client_credentials" && r.Data.ClientAssertionType != oidc.ClientAssertionTypeJWTAssertion
 //@        && result0.AuthMethod() == oidc.AuthMethodPost ==> s.provider.AuthMethodPostSupported()
+//@   ensures storage-fail-closed: !old(storageFailed) && storageFailed ==> err != nil
 
 //@ func op.LegacyServer.authenticateResourceClient
 //@   requires valid(s) && valid(s.provider)
-//@   modifies os(s.provider), wallclock
+//@   modifies os(s.provider), wallclock, storageFailed
 //@   ensures authenticated: err == nil ==> authenticated(result0)
 //@   ensures fail-closed: err != nil ==> result0 == ""
 
@@ -548,29 +586,34 @@ package op
 //@   ensures responded: Resp_written[w]
 //@   ensures success-only-validated: Resp_status[w] == 200 ==> callres("op.ValidateTokenExchangeRequest", 2) == nil && callres("op.CreateTokenExchangeResponse", 1) == nil
 //@        && Resp_body[w] == callres("op.CreateTokenExchangeResponse", 0)
+//@   ensures storage-fail-closed: !old(storageFailed) && storageFailed ==> Resp_status[w] >= 400 || implements(exchanger.Storage(), "TokenExchangeTokensVerifierStorage")
 //@ func op.ClientCredentialsExchange
 //@   requires !Resp_written[w] && valid(r) && valid(exchanger) && valid(w)
 //@   requires supported: exchanger.GrantTypeClientCredentialsSupported()
 //@   modifies Resp_written[w], Resp_status[w], Resp_location[w], Resp_body[w]
 //@   unframed
 //@   ensures responded: Resp_written[w]
+//@   ensures storage-fail-closed: !old(storageFailed) && storageFailed ==> Resp_status[w] >= 400
 //@ func op.DeviceAccessToken
 //@   requires !Resp_written[w] && valid(r) && valid(exchanger) && valid(w)
 //@   requires supported: exchanger.GrantTypeDeviceCodeSupported()
 //@   modifies Resp_written[w], Resp_status[w], Resp_location[w], Resp_body[w]
 //@   unframed
 //@   ensures responded: Resp_written[w]
+//@   ensures storage-fail-closed: !old(storageFailed) && storageFailed ==> Resp_status[w] >= 400
 
 // Token exchange (legacy router): client authentication and the registered-grant check.
 //@ func op.AuthorizeTokenExchangeClient
 //@   requires valid(exchanger)
 //@   ensures fail-closed: err != nil ==> client == nil
 //@   ensures authenticated: err == nil ==> valid(client) && authenticated(clientID) && client.GetID() == clientID
+//@   ensures storage-fail-closed: !old(storageFailed) && storageFailed ==> err != nil
 //@ func op.ValidateTokenExchangeRequest
 //@   requires valid(oidcTokenExchangeRequest) && valid(exchanger)
 //@   ensures fail-closed: err != nil ==> result0 == nil && result1 == nil
 //@   ensures authenticated: err == nil ==> valid(result0) && valid(result1) && authenticated(result1.GetID())
 //@   ensures grant-registered: err == nil ==> grantRegistered(result1, oidc.GrantTypeTokenExchange)
+//@   ensures storage-fail-closed: !old(storageFailed) && storageFailed ==> err != nil || implements(exchanger.Storage(), "TokenExchangeTokensVerifierStorage")
 
 // ---- C18: RP-initiated logout ----
 
@@ -621,6 +664,7 @@ package op
 //@        ite(req.PostLogoutRedirectURI != "" && req.ClientID != "", req.PostLogoutRedirectURI, ender.DefaultLogoutRedirectURI())
 //@   ensures state-appended: err == nil && req.State != "" ==> result0.RedirectURI == callres("op.mergeQueryParams", 0)
 //@        && callarg("net/url.Parse", 0) == ite(req.PostLogoutRedirectURI != "" && req.ClientID != "", req.PostLogoutRedirectURI, ender.DefaultLogoutRedirectURI())
+//@   ensures storage-fail-closed: !old(storageFailed) && storageFailed ==> err != nil
 
 // Redirect only after the session of the validated request was terminated.
 //@ func op.EndSession
@@ -633,6 +677,7 @@ package op
 //@        ==> Resp_location[w] == callres("op.ValidateEndSessionRequest", 0).RedirectURI && callres("op.AuthStorage.TerminateSession", 0) == nil
 //@        && callarg("op.AuthStorage.TerminateSession", 1) == callres("op.ValidateEndSessionRequest", 0).UserID
 //@        && callarg("op.AuthStorage.TerminateSession", 2) == callres("op.ValidateEndSessionRequest", 0).ClientID
+//@   ensures storage-fail-closed: !old(storageFailed) && storageFailed ==> Resp_status[w] >= 400
 //@ func op.LegacyServer.EndSession
 //@   requires valid(s) && valid(s.provider) && valid(r) && valid(r.Data)
 //@   ensures fail-closed: err != nil ==> result0 == nil
@@ -641,6 +686,7 @@ package op
 //@        ==> result0 != nil && result0.URL == callres("op.ValidateEndSessionRequest", 0).RedirectURI && callres("op.AuthStorage.TerminateSession", 0) == nil
 //@        && callarg("op.AuthStorage.TerminateSession", 1) == callres("op.ValidateEndSessionRequest", 0).UserID
 //@        && callarg("op.AuthStorage.TerminateSession", 2) == callres("op.ValidateEndSessionRequest", 0).ClientID
+//@   ensures storage-fail-closed: !old(storageFailed) && storageFailed ==> err != nil
 
 // ---- C15: token exchange ----
 
@@ -655,6 +701,7 @@ package op
 //@        ==> callres("op.AuthStorage.TokenRequestByRefreshToken", 1) == nil && callarg("op.AuthStorage.TokenRequestByRefreshToken", 1) == token
 //@   ensures other-types-refused: ok && !implements(exchanger.Storage(), "TokenExchangeTokensVerifierStorage")
 //@        ==> tokenType == oidc.AccessTokenType || tokenType == oidc.RefreshTokenType || tokenType == oidc.IDTokenType
+//@   ensures storage-fail-closed: !old(storageFailed) && storageFailed ==> !ok || implements(exchanger.Storage(), "TokenExchangeTokensVerifierStorage")
 
 //@ func op.CreateTokenExchangeRequest
 //@   requires valid(oidcTokenExchangeRequest) && valid(client) && valid(exchanger)
@@ -669,6 +716,7 @@ package op
 //@        && callarg("op.TokenExchangeStorage.ValidateTokenExchangeRequest", 1) == result0
 //@   ensures for-this-client: err == nil ==> typeis(result0, "*tokenExchangeRequest") && as(result0, "*tokenExchangeRequest").clientID == client.GetID()
 //@   ensures client-kept: client.GrantTypes() == old(client.GrantTypes()) && client.GetID() == old(client.GetID())
+//@   ensures storage-fail-closed: !old(storageFailed) && storageFailed ==> err != nil || implements(exchanger.Storage(), "TokenExchangeTokensVerifierStorage")
 
 // The response declares what it contains (from the statement): the issued_token_type is the
 // requested one, the token is the one just created for this request, and a type the provider
@@ -687,6 +735,7 @@ package op
 //@   ensures id-token: err == nil && tokenExchangeRequest.GetRequestedTokenType() == oidc.IDTokenType
 //@        ==> result0.AccessToken == callres("op.CreateIDToken", 0) && result0.TokenType == "N_A" && callarg("op.CreateIDToken", 2) == tokenExchangeRequest
 //@   ensures scopes: err == nil ==> result0.Scopes == tokenExchangeRequest.GetScopes()
+//@   ensures storage-fail-closed: !old(storageFailed) && storageFailed ==> err != nil
 
 // ---- C16: device authorization grant ----
 
@@ -711,6 +760,7 @@ package op
 //@   ensures storage-error-denied: called("op.DeviceAuthorizationStorage.GetDeviceAuthorizatonState") && callres("op.DeviceAuthorizationStorage.GetDeviceAuthorizatonState", 1) != nil
 //@        && !isErr(callres("op.DeviceAuthorizationStorage.GetDeviceAuthorizatonState", 1), context.DeadlineExceeded)
 //@        ==> asErr("*oidc.Error", err) != nil && asErr("*oidc.Error", err).ErrorType == oidc.AccessDenied
+//@   ensures storage-fail-closed: !old(storageFailed) && storageFailed ==> err != nil
 
 // Legacy router: tokens only for the state fetched under the identified caller's client id, and a
 // confidential client must have authenticated.
@@ -726,6 +776,7 @@ package op
 //@   ensures confidential-authenticated: result == nil ==> callres("op.ClientIDFromRequest", 1) == (callres("op.OPStorage.GetClientByClientID", 0).ApplicationType() == ApplicationTypeWeb)
 //@   ensures tokens-for-that-state: result == nil ==> callres("op.CreateDeviceTokenResponse", 1) == nil && Resp_body[w] == callres("op.CreateDeviceTokenResponse", 0)
 //@        && as(callarg("op.CreateDeviceTokenResponse", 1), "*DeviceAuthorizationState") == callres("op.CheckDeviceAuthorizationState", 0)
+//@   ensures storage-fail-closed: !old(storageFailed) && storageFailed ==> err != nil
 
 // Server-interface router: the state is fetched under the authenticated client's id.
 //@ func op.LegacyServer.DeviceToken
@@ -737,11 +788,12 @@ package op
 //@   ensures tokens-for-that-state: err == nil ==> callres("op.CreateDeviceTokenResponse", 1) == nil
 //@        && as(callarg("op.CreateDeviceTokenResponse", 1), "*DeviceAuthorizationState") == callres("op.CheckDeviceAuthorizationState", 0)
 //@        && callarg("op.CreateDeviceTokenResponse", 3) == r.Client
+//@   ensures storage-fail-closed: !old(storageFailed) && storageFailed ==> err != nil
 
 // The device authorization response describes exactly what was stored for the requesting client.
 //@ func op.createDeviceAuthorization
 //@   requires valid(req) && valid(o)
-//@   modifies wallclock
+//@   modifies wallclock, storageFailed
 //@   ensures fail-closed: err != nil ==> result0 == nil
 //@   ensures stored: err == nil ==> result0 != nil && callres("op.DeviceAuthorizationStorage.StoreDeviceAuthorization", 0) == nil
 //@        && callarg("op.DeviceAuthorizationStorage.StoreDeviceAuthorization", 1) == clientID
@@ -751,6 +803,7 @@ package op
 //@   ensures expiry: err == nil ==> callarg("op.DeviceAuthorizationStorage.StoreDeviceAuthorization", 4) == now(1) + o.DeviceAuthorization().Lifetime
 //@        && result0.ExpiresIn == o.DeviceAuthorization().Lifetime / 1000000000 && result0.Interval == o.DeviceAuthorization().PollInterval / 1000000000
 //@   ensures codes-from-generators: err == nil ==> result0.DeviceCode == callres("op.NewDeviceCode", 0) && result0.UserCode == callres("op.NewUserCode", 0) && callres("op.NewUserCode", 1) == nil
+//@   ensures storage-fail-closed: !old(storageFailed) && storageFailed ==> err != nil
 
 //@ func op.DeviceAuthorization
 //@   requires !Resp_written[w] && valid(r) && valid(o) && valid(w)
@@ -760,6 +813,7 @@ package op
 //@   ensures no-answer-on-error: result != nil ==> !Resp_written[w]
 //@   ensures for-the-known-client: result == nil ==> callres("op.ParseDeviceCodeRequest", 1) == nil && callres("op.createDeviceAuthorization", 1) == nil
 //@        && callarg("op.createDeviceAuthorization", 2) == callres("op.ParseDeviceCodeRequest", 0).ClientID
+//@   ensures storage-fail-closed: !old(storageFailed) && storageFailed ==> err != nil
 
 // ---- C19: discovery document ----
 
@@ -828,7 +882,7 @@ package op
 // Helper with a loop: writes only its own fresh result slice.
 //@ func op.SigAlgorithms
 //@   requires valid(storage)
-//@   modifies os(storage)
+//@   modifies os(storage), storageFailed
 
 // ---- C08: only live tokens are honoured ----
 
@@ -844,6 +898,7 @@ package op
 //@        && callarg("op.VerifyAccessToken", 1) == accessToken
 //@        && result0 == as(callres("op.VerifyAccessToken", 0), "*oidc.AccessTokenClaims").JWTID
 //@        && result1 == as(callres("op.VerifyAccessToken", 0), "*oidc.AccessTokenClaims").Subject
+//@   ensures storage-fail-closed: !old(storageFailed) && storageFailed ==> !result2
 
 // UserInfo returns claims only for a token that passed getTokenIDAndSubject and that the storage
 // (the liveness oracle) accepted for exactly that id and subject.
@@ -858,6 +913,7 @@ package op
 //@        && callarg("op.OPStorage.SetUserinfoFromToken", 3) == callres("op.getTokenIDAndSubject", 1)
 //@   ensures invalid-token-401: called("op.getTokenIDAndSubject") && !callres("op.getTokenIDAndSubject", 2) ==> Resp_status[w] == 401
 //@   ensures storage-refusal-403: called("op.OPStorage.SetUserinfoFromToken") && callres("op.OPStorage.SetUserinfoFromToken", 0) != nil ==> Resp_status[w] == 403
+//@   ensures storage-fail-closed: !old(storageFailed) && storageFailed ==> Resp_status[w] >= 400
 
 // Revocation: the storage decides, and is asked with the authenticated caller's client id.
 //@ func op.ParseTokenRevocationRequest
@@ -865,6 +921,7 @@ package op
 //@   ensures fail-closed: err != nil ==> token == "" && clientID == ""
 //@   ensures caller-identified: err == nil ==> authenticated(clientID) || (called("op.OPStorage.GetClientByClientID") && callres("op.OPStorage.GetClientByClientID", 1) == nil
 //@        && callres("op.OPStorage.GetClientByClientID", 0).AuthMethod() == oidc.AuthMethodNone && callres("op.OPStorage.GetClientByClientID", 0).GetID() == clientID)
+//@   ensures storage-fail-closed: !old(storageFailed) && storageFailed ==> err != nil
 //@ func op.Revoke
 //@   requires !Resp_written[w] && valid(r) && valid(revoker) && valid(w)
 //@   modifies Resp_written[w], Resp_status[w], Resp_location[w], Resp_body[w]
@@ -875,6 +932,7 @@ package op
 //@        && callarg("op.AuthStorage.RevokeToken", 3) == callres("op.ParseTokenRevocationRequest", 2)
 //@   ensures garbage-token-still-ok: called("op.AuthStorage.RevokeToken") && callres("op.AuthStorage.RevokeToken", 0) == nil ==> Resp_status[w] == 200
 //@   ensures refresh-lookup-by-caller: called("op.AuthStorage.GetRefreshTokenInfo") ==> callarg("op.AuthStorage.GetRefreshTokenInfo", 1) == callres("op.ParseTokenRevocationRequest", 2)
+//@   ensures storage-fail-closed: !old(storageFailed) && storageFailed ==> Resp_status[w] >= 400
 
 // ---- C20: no hidden writes to package-level defaults or caller-/storage-owned objects ----
 
@@ -911,3 +969,30 @@ package op
 //@ func op.DeviceAuthorizationState.GetScopes
 //@   requires valid(r)
 //@   modifies nothing
+
+// ---- C10: token response constructors without other contracts ----
+//@ func op.CreateJWTTokenResponse
+//@   requires valid(tokenRequest) && valid(creator)
+//@   ensures fail-closed: err != nil ==> result0 == nil
+//@   ensures valid: err == nil ==> result0 != nil
+//@   ensures storage-fail-closed: !old(storageFailed) && storageFailed ==> err != nil
+//@ func op.CreateDeviceTokenResponse
+//@   requires valid(tokenRequest) && valid(creator) && valid(client)
+//@   modifies wallclock, os(creator), os(creator.Storage()), os(client), storageFailed
+//@   ensures fail-closed: err != nil ==> result0 == nil
+//@   ensures valid: err == nil ==> result0 != nil
+//@   ensures storage-fail-closed: !old(storageFailed) && storageFailed ==> err != nil
+//@ func op.CreateClientCredentialsTokenResponse
+//@   requires valid(tokenRequest) && valid(creator) && valid(client)
+//@   ensures fail-closed: err != nil ==> result0 == nil
+//@   ensures valid: err == nil ==> result0 != nil
+//@   ensures storage-fail-closed: !old(storageFailed) && storageFailed ==> err != nil
+//@ func op.CreateAuthRequestCode
+//@   requires valid(authReq) && valid(storage) && valid(crypto)
+//@   ensures fail-closed: err != nil ==> result0 == ""
+//@   ensures storage-fail-closed: !old(storageFailed) && storageFailed ==> err != nil
+//@ func op.ValidateClientCredentialsRequest
+//@   requires valid(request) && valid(exchanger)
+//@   ensures fail-closed: err != nil ==> result0 == nil && result1 == nil
+//@   ensures valid: err == nil ==> valid(result0) && valid(result1)
+//@   ensures storage-fail-closed: !old(storageFailed) && storageFailed ==> err != nil
